@@ -81,7 +81,7 @@ def c19(ctx):
         if not scen:
             raise Infra("TLC emitted no behaviours")
         ctx.exhaustive = True
-        ctx.notes["bounds"] = "all histories of %d operations over {wait, reset, query(n)} for n in NsDef and the parameter grid of MC_Backoff.tla" % (3 if quick else 4)
+        ctx.notes["bounds"] = "all histories of %d operations over {wait, reset, query(n)} for n in NsDef and the parameter grid of MC_Backoff.tla; seeded histories of up to 80 operations, one in 25 a long outage (70 to 4200, now and then 33000 / 66000 consecutive waits, per-attempt queries during and after it, then a reset)" % (3 if quick else 4)
         out, nev, _ = vlib.run_driver(ctx, "c19", scen=scen, n=3000 if quick else 60000)
         ctx.verdicts += vlib.tlc_trace(ctx, "TraceBackoff", "Trace_Backoff.cfg", out, nev)
     replay_or(ctx, "c19", "TraceBackoff", "Trace_Backoff.cfg", full)
@@ -496,7 +496,7 @@ def c16(ctx):
 
 
 # ------------------------------------------------------------------ C13
-def life_cfg(rounds, attempts, outcomes, sm, d6=False, d12=False, d27=False, d26=False, d28=False, emit=True, inv=None, restarts=0, disarm=False, props=True):
+def life_cfg(rounds, attempts, outcomes, sm, d6=False, d12=False, d27=False, d26=False, d28=False, emit=True, inv=None, restarts=0, disarm=False, props=True, guardpost=False):
     b = lambda x: "TRUE" if x else "FALSE"
     return """SPECIFICATION Spec
 CONSTANTS
@@ -512,12 +512,13 @@ CONSTANTS
   FailedDialClearsConn = %s
   MaxRestarts = %d
   StopDisarms = %s
+  GuardHeldDuringPost = %s
   Emit = %s
 INVARIANTS %s %s
 %s
 CHECK_DEADLOCK FALSE
-""" % (rounds, attempts, outcomes, b(sm), b(d6), b(d12), b(d27), b(d26), b(d28), restarts, b(disarm), b(emit),
-       inv or "C13_AtMostOneLoop C13_OneSessionPerLoss C13_PostConnectOncePerSession C13_AtMostOneLiveSession C13_PermanentEndsLoop C13_OnlyPermanentErrorsEndLoop C13_StopReturnsRun C13_NoPanic C18_KeepaliveEndsWithSession",
+""" % (rounds, attempts, outcomes, b(sm), b(d6), b(d12), b(d27), b(d26), b(d28), restarts, b(disarm), b(guardpost), b(emit),
+       inv or "C13_AtMostOneLoop C13_LossStartsALoop C13_OneSessionPerLoss C13_PostConnectOncePerSession C13_AtMostOneLiveSession C13_PermanentEndsLoop C13_OnlyPermanentErrorsEndLoop C13_StopReturnsRun C13_NoPanic C18_KeepaliveEndsWithSession",
        "EmitInv" if emit else "", "PROPERTIES C13_LossLeadsToSession" if props else "")
 
 
@@ -528,7 +529,7 @@ def c13(ctx):
         scen = []
         allo = S("refuse", "reset", "transient", "auth", "authtext")
         gens = [dict(rounds=1, attempts=2, outcomes=allo, sm=True), dict(rounds=1, attempts=1, outcomes=allo, sm=False),
-                dict(rounds=2, attempts=1, outcomes=S("refuse", "transient"), sm=True),
+                dict(rounds=2, attempts=1, outcomes=S("refuse") if q else S("refuse", "transient"), sm=True),
                 # STARTTLS on every connection; on a reconnection attempt the SERVER aborts the handshake with a TLS alert
                 dict(rounds=1 if q else 2, attempts=2, outcomes=S("tlsalert", "refuse", "reset"), sm=True),
                 # the application stops the manager and runs it again, losses before and after
@@ -548,11 +549,15 @@ def c13(ctx):
                 raise Infra("non-vacuity: the model variant '%s' did not violate a C13 property (exit %d)" % (name, r["code"]))
         r = vlib.run_tlc(ctx, "Lifecycle", "MC_Lifecycle.cfg", workers=2, timeout=300,
                          cfgtext=life_cfg(rounds=2, attempts=1, outcomes=S("refuse"), sm=True, emit=False, restarts=1, disarm=True))
-        if r["code"] != 13:
-            raise Infra("non-vacuity: the variant in which Stop disarms the manager did not violate C13_LossLeadsToSession (exit %d)" % r["code"])
-        ctx.notes["non_vacuity"] = "model variants with D6 / D12 / D27 / D26 / D28 (code as found) each violate a C13 invariant"
+        if r["code"] not in (12, 13):
+            raise Infra("non-vacuity: the variant in which Stop disarms the manager violated neither C13_LossStartsALoop nor C13_LossLeadsToSession (exit %d)" % r["code"])
+        r = vlib.run_tlc(ctx, "Lifecycle", "MC_Lifecycle.cfg", workers=2, timeout=300,
+                         cfgtext=life_cfg(rounds=2, attempts=1, outcomes=S("refuse"), sm=True, emit=False, guardpost=True, inv="C13_LossStartsALoop", props=False))
+        if r["code"] != 12:
+            raise Infra("non-vacuity: the variant whose reconnection guard is held during the post-connect callback did not violate C13_LossStartsALoop (exit %d)" % r["code"])
+        ctx.notes["non_vacuity"] = "model variants with D6 / D12 / D27 / D26 / D28 (code as found) each violate a C13 invariant; so do the seeded variants StopDisarms and GuardHeldDuringPost"
         ctx.exhaustive = True
-        ctx.notes["bounds"] = "fault sequences: k<=%d losses (abrupt reset / graceful stream close) x up to 2 failing attempts per loss from {connection refused, reset at open, negotiation torn down, credentials rejected} x resumption accepted or refused, SM on/off, then Stop" % (2 if q else 3)
+        ctx.notes["bounds"] = "fault sequences: k<=%d losses (abrupt reset / graceful stream close) x up to 2 failing attempts per loss from {connection refused, reset at open, negotiation torn down, credentials rejected} x resumption accepted or refused, SM on/off, each loss also while the post-connect callback of the session just established is still running, then Stop" % (2 if q else 3)
         out, nev, _ = vlib.run_driver(ctx, "life", scen=scen, timeout=3000)
         ctx.verdicts += vlib.tlc_trace(ctx, "TraceLifecycle", "Trace_Lifecycle.cfg", out, nev, timeout=1800)
     replay_or(ctx, "life", "TraceLifecycle", "Trace_Lifecycle.cfg", full)
